@@ -134,6 +134,17 @@ def run(R):
         R.check(p is None and fw, "C02.CAPTURE", "%s:forward" % m.qualname, R.site(m),
                 "%s forwards its error parameter unchanged on every path on which the task is not yet computed" % name,
                 "%s can return without storing the error (or stores a different object)" % name, cfg.fmt_path(p) if p else None)
+    common.unwrap_capture(R, ro, "C02.CAPTURE-ALL")
+    # an item read synchronously pulls its batch through flush(), which stores a flush failure on the batch instead of raising it:
+    # a reader of an item the flush did serve must get that item's own outcome
+    bi = ro.BatchItemBase.methods.get("_compute")
+    R.need(bi is not None, "anchor vanished: BatchItemBase._compute")
+    pulls = [c for c in q.calls(bi.node) if (q.call_name(c) or "").startswith("self.batch.")]
+    okp = [c for c in pulls if q.call_name(c) in ("self.batch.flush", "self.batch.is_flushed", "self.batch.is_computed")]
+    R.check(len(okp) == len(pulls) and any(q.call_name(c) == "self.batch.flush" for c in pulls), "C02.ITEM-PULL", bi.qualname, R.site(bi),
+            "asking an item for its value flushes its batch with flush() (the batch's own failure is not raised at the reader)",
+            "an item's _compute computes its batch through %s: a flush body that served this item and then raised makes the reader of the served item "
+            "receive the flush error instead of the item's value" % ", ".join(q.src(c) for c in pulls if c not in okp))
     # ---- BLOCKED-ALL
     common.blocked_all(R, ro, "C02.BLOCKED-ALL")
     common.step_only_unblocked(R, ro, "C02.BLOCKED-ALL")
